@@ -35,6 +35,10 @@ ANN = {
     "missing": None, "Any": Any, "object": object,
     "Annotated[A,'x']": Annotated[K0, "x"], "A": K0,
     "'A'": "C15_K0",
+    # every other form written as a string (evaluated in the function's globals)
+    "'Union[A,B]'": "Union[C15_K0, C15_K1]", "'B|A'": "C15_K1 | C15_K0", "'Optional[A]'": "Optional[C15_K0]", "'A|None'": "C15_K0 | None",
+    "'Any'": "Any", "'typing.Any'": "typing.Any", "'object'": "object", "'Annotated[A,1]'": "Annotated[C15_K0, 1]",
+    "'list[A]'": "list[C15_K0]", "'List[A]'": "List[C15_K0]", "'Literal[2,1]'": "Literal[2, 1]", "'Union[int,A]'": "Union[int, C15_K0]",
     "list[A]": list[K0], "List[A]": typing.List[K0],
     "Literal[1,2]": Literal[1, 2], "Literal[2,1]": Literal[2, 1],
     "Literal['a',1]": Literal["a", 1], "Literal[1,'a']": Literal[1, "a"],
@@ -47,14 +51,14 @@ ANN = {
 }
 
 CLASSES_EQ = [
-    ["Union[A,B]", "A|B", "(A,B)", "Union[B,A]", "B|A", "(B,A)"],
-    ["Optional[A]", "A|None", "Union[A,None]", "None|A"],
-    ["missing", "Any", "object"],
-    ["Annotated[A,'x']", "A", "'A'"],
-    ["list[A]", "List[A]"],
-    ["Literal[1,2]", "Literal[2,1]"],
+    ["Union[A,B]", "A|B", "(A,B)", "Union[B,A]", "B|A", "(B,A)", "'Union[A,B]'", "'B|A'"],
+    ["Optional[A]", "A|None", "Union[A,None]", "None|A", "'Optional[A]'", "'A|None'"],
+    ["missing", "Any", "object", "'Any'", "'typing.Any'", "'object'"],
+    ["Annotated[A,'x']", "A", "'A'", "'Annotated[A,1]'"],
+    ["list[A]", "List[A]", "'list[A]'", "'List[A]'"],
+    ["Literal[1,2]", "Literal[2,1]", "'Literal[2,1]'"],
     ["Literal['a',1]", "Literal[1,'a']"],
-    ["Union[A,int]", "A|int", "(int,A)"],
+    ["Union[A,int]", "A|int", "(int,A)", "'Union[int,A]'"],
     ["type[A]", "'type[A]'", "Annotated[type[A],'x']"],
     ["type", "'type'", "type[object]"],
 ]
@@ -74,9 +78,13 @@ def norm(out):
     return (kind, out[1], payload)
 
 
+STRING_NAMES = {"C15_K0": K0, "C15_K1": K1, "Union": Union, "Optional": Optional, "Any": Any, "Annotated": Annotated, "Literal": Literal,
+                "List": typing.List, "typing": typing}
+
+
 def build(labels, prios):
     for glb in gen._FACTORY_GLOBALS:
-        glb["C15_K0"] = K0
+        glb.update(STRING_NAMES)
     mspecs = [{"id": i, "shape": gen.SHAPES["x"], "types": {"x": lab} if ANN[lab] is not None or lab != "missing" else {}, "prio": p}
               for i, (lab, p) in enumerate(zip(labels, prios))]
     for m in mspecs:
@@ -84,7 +92,7 @@ def build(labels, prios):
             m["types"] = {}
     gen.factory(gen.SHAPES["x"], "plain")
     for glb in gen._FACTORY_GLOBALS:
-        glb["C15_K0"] = K0
+        glb.update(STRING_NAMES)
     return gen.Program({}, mspecs, annotate=lambda t, c: ANN[t])
 
 
@@ -178,7 +186,7 @@ def main(tier):
     return core.finish(
         PROP, tier, "model_checking", merged, t0,
         rule="10 classes of equivalent spellings (incl. type[A] written directly / as a string / in Annotated, and bare type / its string form / type[object]) (Union in three syntaxes and both member orders; Optional forms; missing / Any / object; "
-             "Annotated; string annotation; list[A] / typing.List[A]; Literal value orders incl. mixed types; union with a builtin) x "
+             "Annotated; every form also written as a string annotation; list[A] / typing.List[A]; Literal value orders incl. mixed types; union with a builtin) x "
              "surroundings (none; every single method of a pool at priority 0 / 1 / -1; pairs; the other spelling of the same "
              "annotation, which must act as a re-registration) x registered first or last x every corpus value; oracle: the outcome "
              "tables of all spellings of a class are identical; non-trivial = every case compares >= 2 spellings",
